@@ -584,6 +584,23 @@ class Evaluator:
         return T(())
 
     def ev_if(self, n, env):
+        l0 = n.get("l")
+        if isinstance(l0, list) and any(str(m).startswith("debug_assert") for m in l0[1]) and n.get("else") is None \
+                and not getattr(self, "_in_dbg", False):
+            # a debug assertion that FAILS on the values being folded: a panic of debug builds only.  The fold computes the
+            # value of the release build (where the macro expands to nothing) and notes that the arguments are outside the
+            # domain the function asserts.
+            self._in_dbg = True
+            try:
+                return self._ev_if(n, env)
+            except Panic as p:
+                self.debug_assert_failed = getattr(self, "debug_assert_failed", []) + [p.line]
+                return T(())
+            finally:
+                self._in_dbg = False
+        return self._ev_if(n, env)
+
+    def _ev_if(self, n, env):
         c = n["cond"]
         e2 = dict(env)
         cv = self.cond(c, e2)
@@ -593,8 +610,12 @@ class Evaluator:
             if n.get("else") is not None:
                 return self.ev(n["else"], env)
             return T(())
+        # the condition was evaluated once by cond(); evaluating it again only serves to obtain its term: the calls it
+        # contains are the same calls and must not appear twice in the trace
+        n_tr = len(self.trace)
         if self.fork:
             condterm = self._safe(c, dict(env))
+            del self.trace[n_tr:]
             l = n.get("l")
             if isinstance(l, list) and any(str(m).startswith("debug_assert") for m in l[1]):
                 condterm = Sym("debug_assertion", (condterm,))
@@ -604,6 +625,7 @@ class Evaluator:
                 return self.ev(n["else"], env)
             return T(())
         condterm = self._safe(c, dict(env))
+        del self.trace[n_tr:]
         l = n.get("l")
         if isinstance(l, list) and any(str(m).startswith("debug_assert") for m in l[1]) and n.get("else") is None:
             # an undecided debug assertion: it has no effect on the value in a release build and panics in a debug
